@@ -81,6 +81,24 @@ def _row_history(tree):
     out += _strlist("resultTable", [ast.unparse(s) for s in res_if.orelse], "table result")
     rets = [ast.unparse(s) for s in f.body if isinstance(s, ast.Return)]
     out += _strlist("resultReturn", rets, "return statement")
+    # save_row: how the table's highest id is maintained (fix 9826fcb: a maximum)
+    sr = find_func(rh, "save_row")
+    asg = [n for n in sr.body if isinstance(n, ast.Assign) and ast.unparse(n.targets[0]) == "self.table_counters[tablename]"]
+    if len(asg) != 1:
+        raise PinError("save_row: expected exactly one assignment to self.table_counters[tablename]")
+    v = asg[0].value
+    if not (isinstance(v, ast.Call) and ast.unparse(v.func) in ("max", "min") and len(v.args) == 2
+            and isinstance(v.args[1], ast.BoolOp) and isinstance(v.args[1].op, ast.Or)
+            and len(v.args[1].values) == 2 and isinstance(v.args[1].values[1], ast.Constant)
+            and v.args[1].values[1].value == 0 and isinstance(v.args[1].values[0], ast.Call)
+            and isinstance(v.args[1].values[0].func, ast.Attribute) and v.args[1].values[0].func.attr == "get"):
+        raise PinError(f"save_row: table counter is no longer `max(row_id, <dict>.get(<key>) or 0)`: `{ast.unparse(v)}`")
+    repl = ast.Call(func=v.func, args=[v.args[0], ast.Name(id="cur", ctx=ast.Load())], keywords=[])
+    out += lean_def("saveTableCtr", ["row_id", "cur"], "Int",
+                    ExprTranslator({"row_id": "row_id", "cur": "cur"}).tr(repl), doc=ast.unparse(asg[0]))
+    g = v.args[1].values[0]
+    out += _strlist("saveTableCtrSrc", [ast.unparse(g.func.value), ast.unparse(g.args[0])],
+                    "dict and key whose previous value (or 0) the new id is compared with")
     # bookkeeping
     out += _strlist("saveRowBody", _body(find_func(rh, "save_row")), "`save_row` statements")
     out += _strlist("getNicknameIdBody", _body(find_func(rh, "_get_nickname_id")), "`_get_nickname_id` statements")
